@@ -88,6 +88,7 @@ type-checks.  (Adapted from harness/c11/translate.py: the term language, decisio
     (val a compiled regex of the modelled sublanguage: prefix match, greedy with backtracking)
   RequestMethodPredicate.__call__ (observer): request.method -> method ; self.val -> val : list text ; a in l -> mem_text a l
   XHRPredicate.__call__ (observer): request.is_xhr -> xhr ; self.val -> val ; bool(a) is b -> Bool.eqb a b
+  add_route, the statement before `if pattern is None: raise ..` (fragment): pattern / path -> option text parameters
   connect parameters by position    name -> d_name d, pattern -> d_src d, predicates -> d_preds d, static -> d_static d (bool)
   return route (connect)            connected m        a failing Route(..)  ->  connect_failed m e
 """
@@ -410,6 +411,23 @@ def _frag_prefix_context(fn):
     raise Problem('no call statement (self.begin()) ends the prefix computation')
 
 
+def _frag_legacy_path(fn):
+    """the statement of add_route just before `if pattern is None: raise ConfigurationError(..)`: the bw-compat handling of
+    the legacy path= argument (`if pattern is None: pattern = path`)"""
+    body = fn.body
+    for i, st in enumerate(body):
+        if isinstance(st, ast.If) and len(st.body) == 1 and isinstance(st.body[0], ast.Raise) and u(st.test) == 'pattern is None' \
+                and not st.orelse:
+            if i == 0 or not isinstance(body[i - 1], ast.If):
+                raise Problem('no `if` statement precedes the `pattern is None` check')
+            prev = body[i - 1]
+            names = {n.id for n in ast.walk(prev) if isinstance(n, ast.Name)}
+            if not names <= {'pattern', 'path'}:
+                raise Problem('the statement before the `pattern is None` check mentions %s' % sorted(names - {'pattern', 'path'}))
+            return [prev]
+    raise Problem('no `if pattern is None: raise ..` statement at the top level of add_route')
+
+
 FRAGS = [
     dict(file='pyramid/config/routes.py', qual='RoutesConfiguratorMixin.route_prefix_context', gen='gen_nest_prefix', kind='frag',
          select=_frag_prefix_context, result='route_prefix', coqret='option text',
@@ -420,6 +438,10 @@ FRAGS = [
          env={0: (None, SELFCFG), 'pattern': (V('pattern'), TEXT), 'inherit_slash': (('atom', V('inherit')), BOOL)},
          attrs={'route_prefix': (V('prefix'), OPT(TEXT))},
          sig='(prefix : option text) (inherit : bool) (pattern : text) : text', default='pattern'),
+    dict(file='pyramid/config/routes.py', qual='RoutesConfiguratorMixin.add_route', gen='gen_legacy_pattern', kind='frag',
+         select=_frag_legacy_path, result='pattern', coqret='option text',
+         env={0: (None, SELFCFG), 'pattern': (V('pattern'), OPT(TEXT)), 'path': (V('path'), OPT(TEXT))}, attrs={},
+         sig='(pattern path : option text) : option text', default='pattern'),
 ]
 # every source function whose control flow is regenerated on every run (fragments: the rest is in pins_masked.json)
 TRANSLATED = ['pyramid/urldispatch.py:RoutesMapper.__call__', 'pyramid/urldispatch.py:RoutesMapper.connect',
